@@ -2,7 +2,7 @@
 import dns
 import pktgen
 
-SLICE = "BUILD C (build_bytes_vec_compressed) and BUILDW C G (write_compressed_to starting at a non-zero offset)"
+SLICE = "BUILD C (build_bytes_vec_compressed) and BUILDW C G / Q (write_compressed_to starting at a non-zero offset; Q = a writer whose write() accepts 1..5 bytes per call)"
 RULE = ("seeded packets with heavy suffix sharing + messages crossing 16 KiB + the 14-bit boundary catalogue + deep chains; every "
         "name occurrence of the output is located by a schema-aware walker driven by the description: it must decode (RFC 1035) to the "
         "intended name; every pointer must point strictly backwards, to an offset <= 16383 measured from the first byte of the "
@@ -28,7 +28,7 @@ def cases(rng, tier):
         out.append(c)
         if k % 5 == 0 and len(t) < 20000:
             start = rng.choice([1, 2, 7, 300])
-            c = "BUILDW C G %x %s %s" % (start, (bytes([0xEE]) * rng.choice([0, start, start + 5])).hex() or "-", t)
+            c = "BUILDW C %s %x %s %s" % (rng.choice(["G", "G", "Q"]), start, (bytes([0xEE]) * rng.choice([0, start, start + 5])).hex() or "-", t)
             DESCS[c] = p
             START[c] = start
             out.append(c)
